@@ -221,3 +221,43 @@ class Evaluator:
             if ok:
                 hit.append(p)
         return hit
+
+
+class ArithEval(Evaluator):
+    """Evaluator that also interprets the arithmetic trait calls of a generic scalar (add/sub/mul/div/neg/abs/zero/one/min/max, comparisons)
+    on python numbers; opaque symbols are supplied by `sym(term) -> number or None`."""
+
+    def __init__(self, facts, env, sym=None, calls=None):
+        Evaluator.__init__(self, facts, env, calls or {})
+        self.sym = sym
+
+    def call(self, t):
+        m = t[1].rsplit("::", 1)[-1]
+        a = t[2]
+        if self.sym is not None:
+            v = self.sym(t)
+            if v is not None:
+                return v
+        if m in ("add", "sub", "mul", "div") and len(a) == 2:
+            x, y = self.ev(a[0]), self.ev(a[1])
+            if m == "div":
+                return Fraction(x) / Fraction(y)
+            return x + y if m == "add" else x - y if m == "sub" else x * y
+        if m == "neg" and len(a) == 1:
+            return -self.ev(a[0])
+        if m == "abs" and len(a) == 1:
+            return abs(self.ev(a[0]))
+        if m == "zero" and not a:
+            return 0
+        if m == "one" and not a:
+            return 1
+        if m in ("min", "max") and len(a) == 2:
+            x, y = self.ev(a[0]), self.ev(a[1])
+            if not isinstance(x, Enum):
+                return min(x, y) if m == "min" else max(x, y)
+        if m in ("lt", "le", "gt", "ge") and len(a) == 2:
+            x, y = self.ev(a[0]), self.ev(a[1])
+            return {"lt": x < y, "le": x <= y, "gt": x > y, "ge": x >= y}[m]
+        if m in ("into", "from", "clone") and len(a) == 1:
+            return self.ev(a[0])
+        return Evaluator.call(self, t)
